@@ -112,6 +112,45 @@ def check_project(chk, name, fname, content, fmt, opt, model, kind):
                 chk.violation(f"{tag}:python-constants", f"constant_indexes.py disagrees with the C macros: {dict(list(diff.items())[:5])}", {"case": name, "diff": diff})
         except SyntaxError as e:
             chk.violation(f"{tag}:python-constants-syntax", f"generated constant_indexes.py is not valid Python: {e}", {"case": name})
+    # 3b. the other Python module: counts and per-slot lists
+    pyc = os.path.join(pdir, "python", "pynaunet_model", "constants.py")
+    if os.path.exists(pyc):
+        try:
+            ctree = ast.parse(open(pyc).read())
+            cv = {}
+            for t in ctree.body:
+                if isinstance(t, ast.Assign) and len(t.targets) == 1 and isinstance(t.targets[0], ast.Name):
+                    try:
+                        cv[t.targets[0].id] = ast.literal_eval(t.value)
+                    except ValueError:
+                        pass
+            by_slot = {v: k[4:] for k, v in spec.items()}
+            probs = []
+            eq = lambda what, got, want: probs.append(f"{what} = {got!r}, expected {want!r}") if got != want else None
+            eq("NSPEC", cv.get("NSPEC"), NS)
+            eq("NELEM", cv.get("NELEM"), NE)
+            eq("NREAC", cv.get("NREAC"), macros.get("NREACTIONS"))
+            eq("NGAS + NICE", (cv.get("NGAS") or 0) + (cv.get("NICE") or 0), NS)
+            eq("len(ALL_SPECIES)", len(cv.get("ALL_SPECIES", [])), NS)
+            eq("ALL_ALIAS (slot order)", list(cv.get("ALL_ALIAS", [])), [by_slot.get(i) for i in range(NS)])
+            eq("len(ALL_ELEMENTS)", len(cv.get("ALL_ELEMENTS", [])), NE)
+            # ALL_ELEMENTS lists the atomic *species* (a grain element appears under its species name, GRAIN0): where the
+            # name is an element symbol its position is the element slot
+            eq("slots of ALL_ELEMENTS", [elem.get("IDX_ELEM_" + e, i) for i, e in enumerate(cv.get("ALL_ELEMENTS", []))], list(range(NE)))
+            eq("NGAS", cv.get("NGAS"), len(cv.get("ALL_GAS_SPECIES", [])))
+            eq("NICE", cv.get("NICE"), len(cv.get("ALL_ICE_SPECIES", [])))
+            eq("NGRAIN", cv.get("NGRAIN"), len(cv.get("ALL_GRAIN_SPECIES", [])))
+            eq("gas + ice species (as a set)", sorted(list(cv.get("ALL_GAS_SPECIES", [])) + list(cv.get("ALL_ICE_SPECIES", []))), sorted(cv.get("ALL_SPECIES", [])))
+            eq("grain species outside ALL_SPECIES", [g for g in cv.get("ALL_GRAIN_SPECIES", []) if g not in cv.get("ALL_SPECIES", [])], [])
+            eq("HAS_THERMAL", bool(cv.get("HAS_THERMAL")), "IDX_TGAS" in macros)
+            eq("keys of TABLE_SPECIES_GROUPED_BY_ELEMENTS", list(cv.get("TABLE_SPECIES_GROUPED_BY_ELEMENTS", {})), list(cv.get("ALL_ELEMENTS", [])))
+            probs = [x for x in probs if x]
+            if probs:
+                chk.violation(f"{tag}:python-counts", f"pynaunet_model/constants.py disagrees with the C macros / with itself: {probs[:3]}", {"case": name, "problems": probs, "file": pyc})
+            else:
+                chk.ok(f"{tag}:python-counts")
+        except SyntaxError as e:
+            chk.violation(f"{tag}:python-counts-syntax", f"generated constants.py is not valid Python: {e}", {"case": name})
     # 4. project summary written by the render command
     import tomlkit
 
